@@ -25,11 +25,14 @@ MANIFEST = dict(
          'hence for every template body, option set with auditing off, input and pair of environments (clock, hash order, cwd, '
          'absolute location) the C, C++ and HTML outputs are identical file by file; for Python the same holds when the '
          'absolute location is equal (full statement refuted by witness: known finding F-PY-PICKLEPATH). Tie: the tables are '
-         're-extracted on every run (un-gating a timestamp or dropping a sorted() breaks a proof) and real nnvg runs that '
+         're-extracted on every run (un-gating a timestamp or dropping a sorted() breaks a proof; the inventories of set iterations, '
+         'ambient reads, path orderings, keyed sorts, template functions and included files are consulted by the model run, so an '
+         'unaccounted row breaks the main theorem) and real nnvg runs that '
          'differ in PYTHONHASHSEED, wall clock, a patched clock, cwd (absolute arguments, and a directory inside the project with every relative argument re-spelled, incl. two --configuration files), absolute location, and a reused output directory are compared by sha256 with the '
          'model\'s predicted equal/unequal relation, path sets and include lists.',
-    note='Trusted: Coq kernel; tools/translators/gen_c07.py (Jinja block scanner, Python ast scans); the render signature (the '
-         'template body sees the environment only through the audit view) -- ambient reads inside the vendored Jinja2 or pydsdl '
+    note='Trusted: Coq kernel; tools/translators/gen_c07.py (Jinja block scanner incl. include closure, Python ast scans); the named '
+         'premise render_sees_only_body_view (the template body looks at the environment only through the audit view and the '
+         'unaccounted inventory rows; backed by the scan of every registered filter/test/uses-query) -- ambient reads inside the vendored Jinja2 or pydsdl '
          'are visible only through the paired runs; the hand model of build_namespace_tree / IncludeGenerator is validated, not '
          'verified. Not covered: user templates; generator state leaking between files (C10, F-LEL-LEAK) under a changed '
          'generation order; Python version as part of "tool version".',
@@ -515,6 +518,11 @@ def main(chk: core.Check, replay: typing.Optional[str] = None) -> int:
     _t0 = _time.time()
     res = core.coq_check('C07', ['repro'])
     chk.notes.append('phase coq_check %.1fs' % (_time.time() - _t0))
+    if res.ok:
+        # History/C07_history.v (model-sensitivity statements, records of fixed defects): compiled, not an obligation
+        with core.build_lock('coq'):
+            hp = core.run(['make', 'theories/History/C07_history.vo'], cwd=core.COQ, timeout=600)
+        chk.notes.append('History/C07_history.v %s' % ('builds' if hp.returncode == 0 else 'DOES NOT BUILD: ' + hp.stdout[-300:]))
     chk.proof_coverage(res, [
         'tools/translators/gen_c07.py: Jinja block-structure scanner (gating of ambient uses in templates) and Python ast scans '
         '(sorted(), set iterations, ambient reads, gating in _create_platform_version)',
